@@ -50,6 +50,16 @@ func genC08(r *prng) *plan {
 		}
 		p.Ops = append(p.Ops, opSpec{K: "store", N: []int64{int64(i), sz, klen}})
 	}
+	if r.chance(30) {
+		// several large items asked for at (almost) the same time: their transfers overlap
+		for i := 0; i < 3; i++ {
+			p.Ops = append(p.Ops, opSpec{K: "store", N: []int64{int64(nkeys + i), int64(60000 + r.intn(300000)), int64(1 + r.intn(40))}})
+		}
+		p.Cfg["nkeys"] = int64(nkeys + 3)
+		for i := 0; i < 1+r.intn(3); i++ {
+			p.Ops = append(p.Ops, opSpec{K: "parask", N: []int64{int64(2 + r.intn(3)), int64(r.intn(40)), int64(r.u64() >> 1)}})
+		}
+	}
 	n := 4 + r.intn(8)
 	for i := 0; i < n; i++ {
 		if p.Cfg["faults"] == 1 && r.chance(15) {
@@ -187,6 +197,44 @@ func runC08(seed uint64) {
 			}
 			c08AskReadFault(w, P, A, ap, R, op.n(0) == 0, key, want)
 			rdeco.failGet = nil
+		case "parask":
+			nk := int(p.cfg("nkeys"))
+			n := int(op.n(0))
+			gap := time.Duration(op.n(1)) * time.Millisecond
+			var tasks []*task
+			for i := 0; i < n; i++ {
+				key := keys[int64(nk-1-i%3)]
+				if key == nil {
+					continue
+				}
+				want := model[string(key)]
+				tasks = append(tasks, w.spawn("parask", func() error {
+					res, e := ap.api.FindContent(R.enr(), hexutil.Encode(key))
+					if ci, ok := res.(*portalwire.ContentInfo); ok && e == nil {
+						got, _ := hexutil.Decode(ci.Content)
+						if !bytes.Equal(got, want) {
+							w.violate("C08", "wrong-bytes", "one of %d overlapping transfers: the asker got %d bytes (utp=%v), the responder stores %d bytes: %s", n, len(got), ci.UtpTransfer, len(want), diffSummary(got, want))
+						} else {
+							w.probe("content_ok")
+							w.probe("content_ok_overlapping")
+						}
+					}
+					return nil
+				}))
+				if gap > 0 {
+					w.runFor(gap)
+				}
+			}
+			w.runUntil(func() bool {
+				for _, t := range tasks {
+					if !t.done {
+						return false
+					}
+				}
+				return true
+			}, 250*time.Second)
+			w.op("parask: %d large items asked for %v apart", len(tasks), gap)
+			w.abstract("parask n=%d", len(tasks))
 		case "ask", "askmissing":
 			var key []byte
 			if op.K == "ask" {
